@@ -5,6 +5,8 @@ CONSTANTS
   DestSet = {"stdout", "stale", "inplace"}
   AB_KeepOldTail = FALSE
   AnyOrder = FALSE
+  PermuteNames = FALSE
+  AB_TrustNamedOrder = FALSE
   ShapeSet <- MCShapeSet
 INVARIANTS
   EqualsDocumented
